@@ -10,9 +10,17 @@ EXTENDS KSymBase
 Dense(div, fft) == Times3(div, fft)
 KSetsOf(klist, div, fft, KpDivides) == [j \in 1..Len(klist) |-> KSetSeq(klist[j][1], div, fft, KpDivides)]
 
-(* number of times the dense point p occurs in the (multi-)set of k-points of the j-th K-point *)
-Occ(p, ks) == Cardinality({i \in 1..Len(ks) : ks[i] = p})
 SumIdx(n, F(_)) == FoldSet(LAMBDA j, acc : acc + F(j), 0, 1..n)
+SumSetOf(S, F(_)) == FoldSet(LAMBDA x, acc : acc + F(x), 0, S)
+
+(* The weighted multiset of k-points that run() sums over: Measure[p] = sum of the weights w_K of all K-points whose
+   k-set contains the dense point p, counted with multiplicity (one pass over all (K, k) pairs, as the accumulation
+   result_all += factor_K * sum_{k in kpoints_all} ... does).  Count[p] is the same with w_K = 1. *)
+Pairs(ksets) == UNION {{<<j, m>> : m \in 1..Len(ksets[j])} : j \in 1..Len(ksets)}
+Accumulate(ksets, N, W(_)) ==
+   FoldSet(LAMBDA jm, acc : [acc EXCEPT ![ksets[jm[1]][jm[2]]] = @ + W(jm[1])], [p \in GridPts(N) |-> 0], Pairs(ksets))
+Measure(klist, ksets, N) == Accumulate(ksets, N, LAMBDA j : klist[j][2])
+Count(ksets, N) == Accumulate(ksets, N, LAMBDA j : 1)
 
 (* ---- the clauses of C03, stated on an arbitrary (klist, ksets) so that they can be evaluated on the specification's
         own K-list and on one recorded from the implementation ---- *)
@@ -26,27 +34,35 @@ KSetsWellFormed(ksets, div, fft) ==
 MultisetOnce(klist, ksets, div, fft) ==
    /\ Len(klist) = Prod3(div)
    /\ \A j \in 1..Len(klist) : klist[j][2] = 1
-   /\ \A p \in GridPts(Dense(div, fft)) : SumIdx(Len(ksets), LAMBDA j : Occ(p, ksets[j])) = 1
+   /\ LET c == Count(ksets, Dense(div, fft)) IN \A p \in GridPts(Dense(div, fft)) : c[p] = 1
 WeightSum(klist, div) == SumIdx(Len(klist), LAMBDA j : klist[j][2]) = Prod3(div)
+(* with symmetry reduction the k-sets of different retained K-points do not overlap *)
+NoOverlap(ksets, div, fft) == LET c == Count(ksets, Dense(div, fft)) IN \A p \in GridPts(Dense(div, fft)) : c[p] <= 1
 (* the measure  sum_K w_K * (1/|G|) sum_g delta_{g k}, k in kset(K)  that the symmetrised integral uses is the uniform
    measure of the dense grid (scaled by |G| prod(div)): the same for every factorisation *)
-UniformCover(klist, ksets, div, fft, G) ==
-   LET N == Dense(div, fft) IN
-   \A p \in GridPts(N) :
-      SumIdx(Len(klist), LAMBDA j : klist[j][2] * Cardinality({g \in G : ActK(g, p, N) \in SeqRange(ksets[j])})) = Cardinality(G)
+UniformMeasure(mu, N, G) == \A p \in GridPts(N) : SumSetOf(G, LAMBDA g : mu[ActK(g, p, N)]) = Cardinality(G)
+UniformCover(klist, ksets, div, fft, G) == UniformMeasure(Measure(klist, ksets, Dense(div, fft)), Dense(div, fft), G)
 (* what an invariant (scalar) integrand sees: each orbit of the dense grid carries its own size *)
-OrbitContent(klist, ksets, div, fft, G) ==
-   LET N == Dense(div, fft) IN
-   \A O \in Orbits(N, G) :
-      SumIdx(Len(klist), LAMBDA j : klist[j][2] * Cardinality(SeqRange(ksets[j]) \cap O)) = Cardinality(O)
-(* symmetry reduction of the division grid: one representative per orbit - the first in the scan order of the loop -
-   carrying the size of its orbit *)
-OrbitReps(klist, div, G) ==
+OrbitMeasure(mu, N, G) == \A O \in Orbits(N, G) : SumSetOf(O, LAMBDA q : mu[q]) = Cardinality(O)
+OrbitContent(klist, ksets, div, fft, G) == OrbitMeasure(Measure(klist, ksets, Dense(div, fft)), Dense(div, fft), G)
+(* a valid symmetry reduction of the division grid: one representative per orbit carrying the size of its orbit
+   (which representative, and in which order, is immaterial for the integral) *)
+ValidReduction(klist, div, G) ==
    /\ {Star(klist[j][1], div, G) : j \in 1..Len(klist)} = Orbits(div, G)
    /\ Len(klist) = Cardinality(Orbits(div, G))
-   /\ \A j \in 1..Len(klist) :
-         /\ klist[j][2] = Cardinality(Star(klist[j][1], div, G))
-         /\ \A q \in Star(klist[j][1], div, G) : ScanIndex(klist[j][1], div) <= ScanIndex(q, div)
+   /\ \A j \in 1..Len(klist) : klist[j][2] = Cardinality(Star(klist[j][1], div, G))
+ValidFull(klist, div) ==
+   /\ {klist[j][1] : j \in 1..Len(klist)} = GridPts(div) /\ Len(klist) = Prod3(div)
+   /\ \A j \in 1..Len(klist) : klist[j][2] = 1
+(* the k-set of every K-point is the coset  { (m*div + x) mod N }  of the FFT grid, whatever the order *)
+KSetsValid(klist, ksets, div, fft) ==
+   /\ Len(ksets) = Len(klist)
+   /\ \A j \in 1..Len(klist) : Len(ksets[j]) = Prod3(fft) /\ SeqRange(ksets[j]) = KSet(klist[j][1], div, fft)
+(* what the loop of get_K_list does in particular: the representative is the first point of the orbit in scan order, the
+   list is in flattening order *)
+OrbitReps(klist, div, G) ==
+   /\ ValidReduction(klist, div, G)
+   /\ \A j \in 1..Len(klist) : \A q \in Star(klist[j][1], div, G) : ScanIndex(klist[j][1], div) <= ScanIndex(q, div)
    /\ \A j \in 1..(Len(klist) - 1) : FlatIndex(klist[j][1], div) < FlatIndex(klist[j + 1][1], div)
 
 -----------------------------------------------------------------------------
@@ -105,6 +121,9 @@ DetermineNK(periodic, NKdiv, NKFFT, NK, rec, G) ==
    THEN [kind |-> "ok", div |-> MaskPeriodic(NKdiv, periodic), fft |-> MaskPeriodic(NKFFT, periodic),
          warn |-> (IF NK # None THEN {"NK_disregarded"} ELSE {})
                   \cup (IF NK # None /\ NK # Times3(NKFFT, NKdiv) THEN {"adjusted"} ELSE {})]
+   ELSE IF NK # None /\ NKFFT = None /\ ~AutoPossible(rec, G)
+   THEN \* autoNK finds no symmetric FFT grid in [rec, 3 rec): numpy.argmin of an empty array raises ValueError
+        [kind |-> "value_error", div |-> None, fft |-> None, warn |-> (IF NKdiv # None THEN {"NKdiv_disregarded"} ELSE {})]
    ELSE IF NK # None
    THEN LET df == IF NKFFT # None THEN <<RoundDiv(NK, NKFFT), NKFFT>> ELSE AutoNK(NK, rec, G) IN
         [kind |-> (IF NKFFT # None THEN "ok" ELSE "auto"),
